@@ -319,6 +319,9 @@ def enc(x):
                 "k": [[n, enc(v)] for n, v in sorted(x.k.items())]}
     if x is Missing:
         return {"$": "missing"}
+    if hasattr(x, "__labrea_evaluate__") and not isinstance(x, type):
+        # a labrea node handed around as a VALUE (a registry of options, a function that returns an Option …)
+        return "<node %s%s>" % (type(x).__name__, (" " + x.key) if type(x).__name__ == "Option" else "")
     if type(type(x)).__name__ == "_DatasetClassMeta":
         # an instance of a dataset class: the values of its members in `dir()` order (the model's view of a dataset
         # class is the tuple of its members, see pdl.Prog.dsclass)
